@@ -10,6 +10,7 @@ import NanoVerif.Model.Reorder
 import NanoVerif.Model.Naming
 import NanoVerif.Model.Csv
 import NanoVerif.Model.Valid
+import NanoVerif.Model.PaintedLayers
 /-
 Correspondence driver.  One JSON object per input line: {"op": ..., ...}; one JSON object per
 output line.  Run: `lake env lean --run Driver.lean < ops.jsonl`.
@@ -148,8 +149,23 @@ def getAbsFont (j : Json) : Except String AbsFont := do
     keepNames := ← getBool (← field j "keepNames")
     svgNamesRequired := ← getBool (← field j "svgNamesRequired") }
 
+partial def getSvgNode (j : Json) : Except String SvgNode := do
+  let k ← getStr (← field j "k")
+  if k == "shape" then return .shape (← getNat (← field j "id"))
+  let kids ← (← getArr (← field j "kids")).mapM getSvgNode
+  return .group (← getQ (← field j "opacity")) (← getBool (← field j "only_opacity")) kids
+
+partial def jPNode : PNode → Json
+  | .glyph id => obj [("k", "glyph"), ("id", Json.str (toString id))]
+  | .composite a l => obj [("k", "composite"), ("alpha", jQ a), ("layers", Json.arr (l.map jPNode).toArray)]
+
 def dispatch (op : String) (j : Json) : Except String Json := do
   match op with
+  | "painted-layers" =>
+      let body ← (← getArr (← field j "body")).mapM getSvgNode
+      match paintedLayers body with
+      | .ok l => return obj [("ok", Json.arr (l.map jPNode).toArray)]
+      | .error _ => return obj [("err", Json.str "AssertionError")]
   | "valid-font" =>
       let f ← getAbsFont (← field j "font")
       let clauses : List (String × Bool) := [
